@@ -39,7 +39,8 @@ func Parse(regex string) (*AST, error) {
 	p := parser.New(m)
 
 	out, ok := p.Parse(regex)
-	if !ok {
+	if !ok || out.Remaining != nil {
+		// The whole input must be a regular expression; an unconsumed suffix is not silently ignored.
 		return nil, fmt.Errorf("invalid regular expression: %s", regex)
 	}
 
